@@ -24,6 +24,7 @@ func checkC13(c *Ctx) {
 	c13ErrorReturns(c)
 	diagsKeptRule(c, "R7", 10, "json")
 	c13ByteClasses(c)
+	c13StringDelims(c)
 	c.NotCovered("that the scanner and parser accept every valid JSON text and reject every invalid one (a language-equivalence question over byte strings); only the structural obligations above are decided")
 }
 
@@ -763,4 +764,92 @@ func c13ByteClasses(c *Ctx) {
 		}
 		c.Check(!bad, "byteclass", key, fn.Pos(), "{"+classString(cls)+"}", msg)
 	}
+}
+
+// R9 string.delims: the string scanner dispatches on the current byte; the bytes it handles
+// itself (the closing quote, the backslash) must never be skipped as part of a longer advance.
+func c13StringDelims(c *Ctx) {
+	c.Rule("R9 string.delims: in json.scanString, where the loop advances by a whole grapheme cluster (the arm that calls textseg.ScanGraphemeClusters), the advance is cut at the first occurrence of every printable byte that the per-byte dispatch handles itself (those for which the dispatch does not reach that arm: the quote and the backslash) — by bytes.IndexAny / IndexByte over the skipped window — so a quote or an escape that segmentation attaches to a preceding character is still seen")
+	fn := c.P.LookupFunc("json", "scanString")
+	if fn == nil {
+		c.CheckerFail("string.delims", "anchor json.scanString does not resolve")
+		return
+	}
+	c.Fn(FuncName(fn))
+	// the subject: the byte loaded from the buffer parameter in the loop
+	var subj *ssa.UnOp
+	for _, b := range fn.Blocks {
+		for _, ins := range b.Instrs {
+			if ld, ok := ins.(*ssa.UnOp); ok && ld.Op == token.MUL && subj == nil {
+				if ia, ok := ld.X.(*ssa.IndexAddr); ok && len(fn.Params) > 0 && (ia.X == ssa.Value(fn.Params[0]) || isSpillOf(ia.X, fn.Params[0])) {
+					subj = ld
+				}
+			}
+		}
+	}
+	if subj == nil {
+		c.Undecided("string.delims", FuncName(fn)+":subject", fn.Pos(), "the byte the scanner dispatches on was not identified")
+		return
+	}
+	in, _ := byteDomains(fn, func(v ssa.Value) bool { return v == ssa.Value(subj) })
+	n := 0
+	for _, b := range fn.Blocks {
+		for _, ins := range b.Instrs {
+			call, ok := ins.(*ssa.Call)
+			if !ok {
+				continue
+			}
+			cal := call.Call.StaticCallee()
+			if cal == nil || cal.Name() != "ScanGraphemeClusters" || !subj.Block().Dominates(b) {
+				continue
+			}
+			n++
+			c.Sites++
+			d := in[b]
+			var special []byte
+			for v := 0x20; v < 0x80; v++ {
+				if !d.has(byte(v)) {
+					special = append(special, byte(v))
+				}
+			}
+			// the cut set: constants searched for in blocks this arm dominates
+			cut := map[byte]bool{}
+			for _, b2 := range fn.Blocks {
+				if b2 != b && !b.Dominates(b2) {
+					continue
+				}
+				for _, i2 := range b2.Instrs {
+					c2, ok := i2.(*ssa.Call)
+					if !ok {
+						continue
+					}
+					k := c2.Call.StaticCallee()
+					if k == nil || k.Pkg == nil || (k.Pkg.Pkg.Path() != "bytes" && k.Pkg.Pkg.Path() != "strings") || len(c2.Call.Args) != 2 {
+						continue
+					}
+					switch k.Name() {
+					case "IndexAny", "ContainsAny":
+						if cn, ok := c2.Call.Args[1].(*ssa.Const); ok && cn.Value != nil && cn.Value.Kind() == constant.String {
+							for _, ch := range []byte(constant.StringVal(cn.Value)) {
+								cut[ch] = true
+							}
+						}
+					case "IndexByte", "IndexRune", "ContainsRune":
+						if v, ok := constInt(c2.Call.Args[1]); ok && v >= 0 && v < 256 {
+							cut[byte(v)] = true
+						}
+					}
+				}
+			}
+			var missing []string
+			for _, sp := range special {
+				if !cut[sp] {
+					missing = append(missing, fmt.Sprintf("%q", sp))
+				}
+			}
+			c.Check(len(missing) == 0, "string.delims", FuncName(fn)+":cluster-advance", call.Pos(), fmt.Sprintf("the advance is cut at each of the %d bytes the dispatch handles itself", len(special)),
+				"the scanner advances by a whole grapheme cluster without looking for "+strings.Join(missing, ", ")+" inside it, although its per-byte dispatch gives that byte a meaning of its own: a closing quote or an escape attached by segmentation to the preceding character (U+0600 …) is skipped and a valid JSON string is mis-scanned")
+		}
+	}
+	c.Floor("string.delims cluster advances", n, 1, "the default arm of scanString")
 }
